@@ -135,3 +135,58 @@ pub fn split_auth(a: &[u8]) -> AuthSplit {
     let port = if he < n { Some((he + 1, n)) } else { None };
     AuthSplit { user_info, host: (hs, he), port }
 }
+
+pub const MAXSEG: usize = 18;
+
+/// The '/'-separated pieces of a path after the optional leading '/'.
+/// `""` and `"/"` have no segment; `"/a/"` has two (`a` and the empty one).
+#[derive(Clone, Copy)]
+pub struct PathSplit {
+    pub absolute: bool,
+    pub count: usize,
+    pub seg: [R; MAXSEG],
+}
+
+pub fn split_path(b: &[u8]) -> PathSplit {
+    let n = b.len();
+    let absolute = n > 0 && b[0] == b'/';
+    let mut out = PathSplit { absolute, count: 0, seg: [(0, 0); MAXSEG] };
+    if n == 0 || (n == 1 && absolute) {
+        return out;
+    }
+    let mut start = if absolute { 1 } else { 0 };
+    let mut i = start;
+    while i <= n {
+        if i == n || b[i] == b'/' {
+            assert!(out.count < MAXSEG);
+            out.seg[out.count] = (start, i);
+            out.count += 1;
+            start = i + 1;
+        }
+        i += 1;
+    }
+    out
+}
+
+/// Joining the pieces with '/' (after the optional leading '/') gives the text.
+pub fn path_tiles(b: &[u8], s: &PathSplit) -> bool {
+    let mut i = if s.absolute { 1 } else { 0 };
+    let mut k = 0;
+    while k < s.count {
+        if s.seg[k].0 != i {
+            return false;
+        }
+        i = s.seg[k].1;
+        k += 1;
+        if k < s.count {
+            if i >= b.len() || b[i] != b'/' {
+                return false;
+            }
+            i += 1;
+        }
+    }
+    if s.count == 0 {
+        return b.len() == i;
+    }
+    i == b.len()
+}
